@@ -59,7 +59,8 @@ def w_vacancy(arg):
     hasOS = len(d.OSindices) > 0
     acc.klass = 'OS=%d,wy=%d,pg=%d,dim=%d' % (hasOS, len(d.sitelist), len({tuple(np.round(g.cartrot, 6).ravel()) for g in G}), c.dim)
     nsets = 3 if tier == 'quick' else 8
-    for k in range(nsets):
+    first_tracer = None
+    for k in range(nsets + (1 if which == 'C06' else 0)):
         tag = 'dataset %d' % k
         if which == 'C03':
             t = data(d, rng, spread=(1.0, 3.0, 8.0)[k % 3], tracer=(k == 0))
@@ -92,8 +93,20 @@ def w_vacancy(arg):
             d2, _ = build(cid, tier, seed)
             same(L(d2, scaled), 'rate-scaling-on-a-fresh-calculator', lam)
             same(L(d, t), 'reused-calculator-reproduces-the-unscaled-result')
+            # every rate times a factor far from one, applied once through the prefactors and once through the transition-state energies:
+            # nothing in the calculator may compare a rate with an absolute number
+            for big in (1e-10, 1e10):
+                same(L(d, dict(t, preT0=t['preT0'] * big, preT1=t['preT1'] * big, preT2=t['preT2'] * big)), 'scales-with-an-extreme-rate-factor(prefactors)', big)
+                sh = -np.log(big)
+                same(L(d, dict(t, eneT0=t['eneT0'] + sh, eneT1=t['eneT1'] + sh, eneT2=t['eneT2'] + sh)), 'scales-with-an-extreme-rate-factor(transition-energies)', big)
         if which == 'C06':
-            t = data(d, rng, spread=(1.0, 2.5)[k % 2], tracer=True)
+            if k == nsets:
+                # the first data set once more, after the others went through the same calculator: the identities are a property of
+                # the inputs, not of what the Green-function calculator evaluated last
+                t = first_tracer; tag = tag + ' (first data set again, after %d others)' % (nsets - 1)
+            else:
+                t = data(d, rng, spread=(1.0, 2.5)[k % 2], tracer=True)
+                if first_tracer is None: first_tracer = t
             L0, Lss, Lsv, L1 = L(d, t); sc = np.abs(L0).max()
             # crystals with origin states: the identity involves the integrated bias correction, so it holds to the Green-function
             # integration accuracy only (fixed constant 1e-4, the same as for the lattice equation of C10); otherwise it is algebraic
@@ -255,6 +268,21 @@ def w_history(arg):
             # a second generation round trip and further use
             d3 = h5_roundtrip(d2)
             acc.check(same_L(L(d3, pool[-1]), L(d1, pool[-1])), 'second-generation-reload-identical', when, sig=('gen2', when))
+        # the user's site list (any order of the Wyckoff sets, any order inside a set is the user's to choose) is part of what is saved
+        if len(d.sitelist) >= 2:
+            from onsager import OnsagerCalc
+            c, chem = e['crys'], e['chem']
+            user_sl = [list(w) for w in c.sitelist(chem)][::-1]
+            dU = OnsagerCalc.VacancyMediated(c, chem, user_sl, c.jumpnetwork(chem, e['cutoff']), 1)
+            tU = data(dU, rng); tU['eneV'] = np.linspace(0., 0.9, len(user_sl)); tU['eneS'] = np.linspace(0.4, -0.3, len(user_sl)); tU.update(dU.makeLIMBpreene(**tU))
+            try:
+                dU2 = h5_roundtrip(dU)
+                acc.check([sorted(w) for w in dU2.sitelist] == [sorted(w) for w in dU.sitelist], 'reloaded-site-list-keeps-the-users-order-of-wyckoff-sets', '%r vs %r' % (dU2.sitelist, dU.sitelist), sig=('usl',))
+                g1, g2 = L(dU, tU), L(dU2, tU)
+                acc.check(same_L(g1, g2), 'reloaded-calculator-gives-identical-results(user-ordered site list)', 'max deviation %.2e' % (max(np.abs(a - b).max() for a, b in zip(g1, g2)) / max(np.abs(x).max() for x in g1)), sig=('Lusl',))
+                acc.check(dU2.tags == dU.tags, 'reloaded-tags-identical(user-ordered site list)', '', sig=('tagusl',))
+            except Exception as ex:
+                acc.check(False, 'hdf5-round-trip-no-exception', 'user-ordered site list: %s: %s' % (type(ex).__name__, str(ex)[:200]))
     acc.sample = {'calculator': cid, 'inputs': len(pool), 'property': which}
     return acc.result()
 
@@ -275,6 +303,46 @@ def w_tags(arg):
         ok = all(calc.tagdict[t] == i and calc.tagdicttype[t] == k for k in kinds for i, cls in enumerate(calc.tags[k]) for t in cls) and set(calc.tagdict) == set(alltags)
         acc.check(ok, 'tag-dictionary-names-exactly-the-class-that-lists-the-tag', type(calc).__name__, sig=('dict', type(calc).__name__))
         acc.check(all(len(cls) > 0 for k in kinds for cls in calc.tags[k]), 'every-class-has-a-tag', type(calc).__name__)
+    # ---- what a tag NAMES: the positions written in the tag, decoded without the calculator, are the member's geometry
+    import re
+    DEFECT = re.compile(r'([isv]):((?:[+-]\d+\.\d+,?)+)')
+    crys, chem = d.crys, d.chem; basis = crys.basis[chem]
+    scale = max(np.linalg.norm(crys.lattice, axis=0))
+    def decode(tag): return [(m.group(1), np.array([float(x) for x in m.group(2).rstrip(',').split(',')])) for m in DEFECT.finditer(tag)]
+    def site_of(u):
+        hits = []
+        for s_, b in enumerate(basis):
+            R = np.round(u - b)
+            if np.abs(u - b - R).max() < 1.6e-3: hits.append((s_, R.astype(int)))
+        return hits[0] if len(hits) == 1 else (None, None)
+    def named(tag, kinds, want):
+        # want: list of (site index, lattice vector or None for 'any, fixed by dx'), same length as kinds
+        dec = decode(tag)
+        if [k for k, u in dec] != list(kinds) or any(len(u) != crys.dim for k, u in dec): return False
+        for (k, u), (s_, R) in zip(dec, want):
+            s2, R2 = site_of(u)
+            if s2 != s_ or (R is not None and not np.array_equal(R2, np.asarray(R))): return False
+        return True
+    def disp(tag, a, b):
+        dec = decode(tag); return crys.lattice @ (dec[b][1] - dec[a][1])
+    okI = all(named(t, 'i', [(s_, np.zeros(crys.dim, int))]) for sites, tl in zip(di.sitelist, di.tags['states']) for s_, t in zip(sites, tl))
+    acc.check(okI, 'interstitial-state-tag-names-the-position-of-its-site', '', sig='nameI')
+    okT = all(named(t, 'ii', [(i, np.zeros(crys.dim, int)), (j, None)]) and np.abs(disp(t, 0, 1) - dx).max() < 4e-3 * scale
+              for jl, tl in zip(di.jumpnetwork, di.tags['transitions']) for ((i, j), dx), t in zip(jl, tl))
+    bad = [t for jl, tl in zip(di.jumpnetwork, di.tags['transitions']) for ((i, j), dx), t in zip(jl, tl) if not (named(t, 'ii', [(i, np.zeros(crys.dim, int)), (j, None)]) and np.abs(disp(t, 0, 1) - dx).max() < 4e-3 * scale)]
+    acc.check(okT, 'interstitial-transition-tag-names-start-site-and-end-point-of-its-jump', 'e.g. %s' % bad[:2], sig='nameT')
+    Z = np.zeros(crys.dim, int)
+    for kind, ch in (('vacancy', 'v'), ('solute', 's')):
+        acc.check(all(named(t, ch, [(s_, Z)]) for sites, tl in zip(d.sitelist, d.tags[kind]) for s_, t in zip(sites, tl)), '%s-tag-names-the-position-of-its-site' % kind, '', sig='name' + ch)
+    acc.check(all(named(t, 'sv', [(PS.i, Z), (PS.j, PS.R)]) for star, tl in zip(d.thermo.stars, d.tags['solute-vacancy']) for PS, t in zip([d.thermo.states[x] for x in star], tl)),
+              'solute-vacancy-tag-names-the-complex-of-its-state', '', sig='namesv')
+    acc.check(all(named(t, 'vv', [(i, Z), (j, None)]) and np.abs(disp(t, 0, 1) - dx).max() < 4e-3 * scale for jl, tl in zip(d.om0_jn, d.tags['omega0']) for ((i, j), dx), t in zip(jl, tl)),
+              'omega0-tag-names-start-site-and-end-point-of-its-jump', '', sig='name0')
+    ks = d.kinetic.states
+    acc.check(all(named(t, 'svv', [(ks[i].i, Z), (ks[i].j, ks[i].R), (ks[j].j, ks[j].R)]) and ks[i].i == ks[j].i and np.abs(disp(t, 1, 2) - dx).max() < 4e-3 * scale
+                  for jl, tl in zip(d.om1_jn, d.tags['omega1']) for ((i, j), dx), t in zip(jl, tl)), 'omega1-tag-names-the-solute-and-both-vacancy-positions-of-its-jump', '', sig='name1')
+    acc.check(all(named(t, 'svsv', [(ks[i].i, Z), (ks[i].j, ks[i].R), (ks[j].i, Z), (ks[j].j, ks[j].R)]) for jl, tl in zip(d.om2_jn, d.tags['omega2']) for ((i, j), dx), t in zip(jl, tl)),
+              'omega2-tag-names-both-complexes-of-its-exchange', '', sig='name2')
     sizes = {'vacancy': len(d.sitelist), 'solute': len(d.sitelist), 'solute-vacancy': d.thermo.Nstars, 'omega0': len(d.om0_jn), 'omega1': len(d.om1_jn), 'omega2': len(d.om2_jn)}
     names = {'vacancy': ('preV', 'eneV'), 'solute': ('preS', 'eneS'), 'solute-vacancy': ('preSV', 'eneSV'), 'omega0': ('preT0', 'eneT0'), 'omega1': ('preT1', 'eneT1'), 'omega2': ('preT2', 'eneT2')}
     acc.check(all(len(d.tags[k]) == n for k, n in sizes.items()), 'one-tag-class-per-symmetry-class', str({k: len(d.tags[k]) for k in sizes}), sig='sizes')
